@@ -8,6 +8,7 @@ import dataclasses
 from typing import Iterable, TypeVar
 
 from func_adl import ObjectStream, func_adl_callable, func_adl_callback
+from func_adl import func_adl_parameterized_call
 from func_adl import register_func_adl_os_collection
 from func_adl.type_based_replacement import (
     ObjectStreamInternalMethods,
@@ -54,9 +55,19 @@ class Jet1:
     def eta(self, a: int = 1, b: int = 2) -> float: ...  # noqa
 
 
+def _param_cb(s: ObjectStream, a, param):
+    FAULT["cb_calls"] += 1
+    if FAULT["cb_raise"]:
+        raise InjectedCallbackError("info")
+    return s.MetaData({"p": str(param)}), a, float
+
+
 @func_adl_callback(_cb("evt"))
 class Evt1:
     def jets(self, name: str = "def") -> Iterable[Jet1]: ...  # noqa
+
+    @property
+    def info(self): ...  # noqa  (a parameterized property: e.info['x'](1))
 
     def met(self) -> float: ...  # noqa
 
@@ -111,6 +122,7 @@ def setup():
     FAULT["cb_raise"] = False
     FAULT["cb_calls"] = 0
     register_func_adl_os_collection(JetColl)
+    func_adl_parameterized_call(_param_cb)(Evt1.__dict__["info"])
 
     @func_adl_callable(_fsq_processor)
     def fsq(x: float, p: int = 2) -> float: ...  # noqa
